@@ -298,7 +298,12 @@ def sourceItems (h : Heap) : List Ref → Except Err (List (Label × ColMeta))
       | .error e => .error e
       | .ok rest => .ok (cs ++ rest)
 
-/-- `[d.metadata.origin for d in data]` -/
+def Origin.isAbsent : Origin → Bool
+  | .absent => true
+  | _ => false
+
+/-- `[d.metadata.origin for d in data if d.metadata.origin is not None]`: a table made in code has
+    no origin and contributes no parent -/
 def originsOf (h : Heap) : List Ref → Except Err (List Origin)
   | [] => .ok []
   | d :: ds =>
@@ -306,7 +311,7 @@ def originsOf (h : Heap) : List Ref → Except Err (List Origin)
     | .error e => .error e
     | .ok tm => match originsOf h ds with
       | .error e => .error e
-      | .ok os => .ok (tm.origin :: os)
+      | .ok os => .ok (if tm.origin.isAbsent then os else tm.origin :: os)
 
 abbrev Acc := List (Label × Ref)
 
@@ -461,12 +466,23 @@ def finalize (h : Heap) (method : Option Str) (objInfo : Option Ref) (o : Other)
 
 structure Kw where
   name : Option Str
-  dests : Option (List Str)
+  dests : Option (List Str)            -- `destinations=<a set>`
   units : Option (List Str)
   transposed : Option Bool
+  destsStr : Option Str := none        -- `destinations="a b"`: `__post_init__` splits at single blanks
+  origin : Option Origin := none       -- `origin=<TableOrigin or None>` (`some .absent` = an explicit `None`)
+  strict : Option Bool := none         -- `strict_types=`
 
 def Kw.isEmpty (kw : Kw) : Bool :=
-  kw.name.isNone && kw.dests.isNone && kw.units.isNone && kw.transposed.isNone
+  kw.name.isNone && kw.dests.isNone && kw.units.isNone && kw.transposed.isNone &&
+  kw.destsStr.isNone && kw.origin.isNone && kw.strict.isNone
+
+/-- the destinations value given by the caller, a `str` value already split as `__post_init__` does
+    (`set(s.split(" "))`: empty tokens are kept) -/
+def Kw.destsValue (kw : Kw) : Option (List Str) :=
+  match kw.destsStr with
+  | some s => some (splitOn ' ' s)
+  | none => kw.dests
 
 /-- `{col: ColumnMetadata(unit) for col, unit in zip(df.columns, units)}` -/
 def zipCols : Heap × Acc → List (Label × Str) → Heap × Acc
@@ -513,8 +529,9 @@ def rewrap (h : Heap) (i : Ref) (fr : Frame) (kw : Kw) : Except Err (Heap × Ref
   match colsOf h1 i with
   | .error e => .error e
   | .ok cs =>
-  let p := destsArg h1 tm.dests kw.dests
-  buildTable p.1 (kw.name.getD tm.name) p.2 tm.origin (kw.transposed.getD tm.transposed) tm.strict
+  let p := destsArg h1 tm.dests kw.destsValue
+  buildTable p.1 (kw.name.getD tm.name) p.2 (kw.origin.getD tm.origin) (kw.transposed.getD tm.transposed)
+    (kw.strict.getD tm.strict)
     (fr.labels.zip (kw.units.getD (cs.map (fun c => c.2.unit)))) fr
 
 /-! ## Follow-up mutations through the `Table` facade -/
